@@ -1,6 +1,7 @@
 import AwsVerif.Gen.Math
 import AwsVerif.Model.MathAsm
 import AwsVerif.Proofs.C16.Bits
+import AwsVerif.Proofs.C16.Varargs
 /-!
 # C16 — overflow-checked arithmetic and time-unit conversion are exact or flagged
 
@@ -689,5 +690,34 @@ example : Clock.aws_timestamp_convert_u64 (2^63 - 1) (2^63) (2^63) false = some 
     saturating 64 ((2^63 - 1) * 2^63 / 2^63) = 2^63 - 1 := by decide
 example : Clock.aws_timestamp_convert_u64 (2^64 - 1) (2^32) (2^32 - 1) true = some (2^64 - 2^32 - 1, 0) ∧
     saturating 64 ((2^64 - 1) * (2^32 - 1) / 2^32) = 2^64 - 2^32 - 1 := by decide
+
+/-! ## the variadic checked sum (source/math.c)
+
+`aws_add_size_checked_varargs(num, &r, a₁, a₂, …)`: `args` is the list of variadic arguments the caller actually
+passed (at least `num` of them; more are legal C and must not contribute).  The result is the exact sum of the
+first `num` of them, or the overflow error — in particular the empty sum `0` for `num = 0`, whatever follows.
+`junk` stands for what `va_arg` would yield beyond the passed arguments (never consulted under `num ≤ args.length`). -/
+
+theorem c16_add_size_checked_varargs (num : Nat) (args : List Nat) (junk : Nat)
+    (hnum : num ≤ args.length) (hnum64 : num < 2^64) :
+    MathC.aws_add_size_checked_varargs num args junk = checked 64 ((args.take num).sum) := by
+  have hadd : ∀ a b, MathInl.aws_add_size_checked a b = if a + b < 2^64 then Res.ok (a + b) else Res.err 5 :=
+    fun a b => by rw [add_size_checked]; rfl
+  simp only [MathC.aws_add_size_checked_varargs]
+  rw [AwsVerif.Proofs.C16.Varargs.loop_spec num junk hnum64 hadd (num + 1) 0 0 args (by omega) (by omega) (by decide)
+    (by omega)]
+  simp only [Nat.sub_zero, Nat.zero_add]
+  rfl
+
+/-- the empty sum: no variadic argument is consulted -/
+theorem c16_add_size_checked_varargs_zero (args : List Nat) (junk : Nat) :
+    MathC.aws_add_size_checked_varargs 0 args junk = .ok 0 := by
+  rw [c16_add_size_checked_varargs 0 args junk (Nat.zero_le _) (by decide)]; rfl
+
+example : MathC.aws_add_size_checked_varargs 0 [12345] 7 = .ok 0 ∧
+    MathC.aws_add_size_checked_varargs 3 [2^63, 2^63 - 1, 0, 99] 7 = .ok (2^64 - 1) ∧
+    MathC.aws_add_size_checked_varargs 3 [2^63, 2^63 - 1, 1] 7 = .err 5 ∧
+    MathC.aws_add_size_checked_varargs 2 [2^63, 2^63, 0] 7 = .err 5 ∧
+    MathC.aws_add_size_checked_varargs 5 [1, 2, 3, 4, 5, 2^64 - 1] 7 = .ok 15 := by decide
 
 end AwsVerif.Props.C16
